@@ -177,6 +177,10 @@ def integrate_spin(expr: Expr, target_idx: str, target_spin: str) -> Expr:
         # - form all unique valid combinations of idx_maps while checking
         #   for contradictions
         combinations = []
+        # the term only consists of objects without known spin blocks:
+        # start from an empty index map (all spins are allowed)
+        if not term_spin_idx_maps:
+            combinations.append({"a": set(), "b": set()})
         for tensor_spin_idx_maps in term_spin_idx_maps:
             if not combinations:  # initialize combinations
                 combinations.extend(tensor_spin_idx_maps)
